@@ -114,7 +114,8 @@ def step (st : St) (toks : List String) (impl : String) : St × LineResult :=
       let (mon', vs) := PoolSpec.check st.geo st.mon (event m.cfg op impl)
       -- the only clause under which a verdict is attributed to a recorded finding
       let clause := fun (v : String) =>
-        if (v == "exhaustion" || v == "total") && decide (m.cfg.plen - m.cfg.poolPrefix ≥ 64)
+        -- … and only when the model (which follows the uint64 wrap of 1 << (plen - prefix)) reproduces this very answer
+        if (v == "exhaustion" || v == "total") && decide (m.cfg.plen - m.cfg.poolPrefix ≥ 64) && shown == impl
         then "KF-bitmap-wide" else "none"
       ({ st with model := some m', mon := mon' },
        { modelObs := shown, viols := vs.map fun (n, d) => (n, clause n, d) })
